@@ -324,8 +324,10 @@ func (a *Agent) gatherCandidatesLocal(ctx context.Context, networkTypes []Networ
 
 	// When UDPMux is enabled, skip other UDP candidates
 	if a.udpMux != nil {
-		if err := a.gatherCandidatesLocalUDPMux(ctx); err != nil {
-			a.log.Warnf("Failed to create host candidate for UDPMux: %s", err)
+		if _, udpEnabled := networks[udp]; udpEnabled {
+			if err := a.gatherCandidatesLocalUDPMux(ctx); err != nil {
+				a.log.Warnf("Failed to create host candidate for UDPMux: %s", err)
+			}
 		}
 		delete(networks, udp)
 	}
